@@ -156,7 +156,7 @@ def finish(ctx, level, undecided, assumptions, t0, extra_cov=None, checker_cmd=N
     new_v, known_v = [], []
     for v in ctx.violations:
         (known_v if v["key"] in known else new_v).append(v)
-    ev_dir = os.path.join(VERIF, "evidence")
+    ev_dir = os.environ.get("VERIF_EVIDENCE_DIR") or os.path.join(VERIF, "evidence")
     os.makedirs(ev_dir, exist_ok=True)
     obligations = len(ctx.oks) + len(ctx.violations)
     samples = []
